@@ -46,7 +46,9 @@ def cases_for_rule(ri, rn, ctx):
     for a in decl:
         listed = aspec[a][1:]
         if listed:
-            opts = [None] + list(listed) + unlisted_values(listed)
+            # unlisted variants, and the values listed for the OTHER enumerated attributes of the same rule (each attribute has its own list)
+            foreign_listed = [v for b in decl if b != a for v in aspec[b][1:] if v not in listed]
+            opts = [None] + list(listed) + unlisted_values(listed) + foreign_listed[:3]
         else:
             opts = [None, "v", ""]
         per_attr.append(opts)
@@ -204,6 +206,7 @@ def run(ctx):
     # one Rule object used for several nodes in a row (a caller may keep the object get_rule() gave it): every validation answers
     # as a fresh object would - nothing is consumed or left behind by an earlier call
     reuse = 0
+    SHARED = {}
     for rn in ri.rule_names():
         aspec = ri.rules[rn][0]
         if not aspec:
@@ -221,9 +224,11 @@ def run(ctx):
                     n.add_attribute(k, v)
                 for kn in ri.valid_kids(rn):
                     c = Node(kn); n.children.append(c); c.parent = n
-                errs = []
+                shared = SHARED.setdefault(rn, [])          # one caller-owned list for the whole sequence (as validate.tree uses one)
+                before_len = len(shared)
                 try:
-                    r.validate_rule(n, errs)
+                    r.validate_rule(n, shared)
+                    errs = shared[before_len:]
                     got = set()
                     for e in errs:
                         if e[0].name in impl.ATTR_CODES:
